@@ -220,6 +220,41 @@ def bounds_pass_through(ctx) -> None:
     ctx.check(ok and not stored, 'C10.bounds', build, 'every build asks the feed for the extraction of *its* (lower, upper) and keeps nothing of it on the runner', loads[0] if loads else build.node, key='build:load')
 
 
+# functions that consume the bounds one by one instead of handing them on (one reason each)
+BOUND_CONSUMERS = {
+    'forml.project._component:Source.Extract.Ordinal.where': 'each side becomes its own term of the where-clause (checked by C10.where)',
+}
+
+
+def bounds_paired(ctx) -> None:
+    """A window has two sides and they travel together: wherever a function that receives ``lower`` and ``upper`` hands one of
+    them on as it is, it hands on the other one right next to it (positionally ``lower, upper`` or under the keywords of the
+    same names).  A forwarder that drops one side opens the window on that side: consecutive windows then overlap (or leave
+    gaps) whatever the delivery semantic promises."""
+    prog = ctx.prog
+    n = 0
+    for fn in prog.functions(sorted(prog.modules)):
+        if not {'lower', 'upper'} <= set(fn.param_names):
+            continue
+        if fn.ref in BOUND_CONSUMERS:
+            ctx.ok('C10.bounds', fn, f'end of the line: {BOUND_CONSUMERS[fn.ref]}', fn.node)
+            continue
+        sites = []
+        for c in ast.walk(fn.node):
+            if not isinstance(c, ast.Call):
+                continue
+            pos = [a.id if isinstance(a, ast.Name) else None for a in c.args]
+            kws = {k.arg: k.value.id for k in c.keywords if isinstance(k.value, ast.Name)}
+            if 'lower' in pos or 'upper' in pos or 'lower' in kws.values() or 'upper' in kws.values():
+                sites.append((c, pos, kws))
+        for c, pos, kws in sites:
+            n += 1
+            positional = 'lower' in pos and pos.index('lower') + 1 < len(pos) and pos[pos.index('lower') + 1] == 'upper' and pos.count('lower') == pos.count('upper') == 1
+            keyword = kws.get('lower') == 'lower' and kws.get('upper') == 'upper' and 'lower' not in pos and 'upper' not in pos
+            ctx.check(positional != keyword, 'C10.bounds', fn, f'both sides of the window are handed on together, in their roles (`{core.src(c)[:70]}`)', c, key=f'paired:{core.src(c.func)[-40:]}')
+    ctx.floor('C10.bounds-paired', n, 15)
+
+
 def feed_roles(ctx) -> None:
     """The feed keeps the two statements in their roles all the way into the drivers: in ``Feed.load`` the *apply* actor of the
     extraction operator is built from ``extract.apply`` and the *train* actor from ``extract.train`` (def-use closure over
@@ -369,6 +404,7 @@ def run(ctx) -> None:
     extract_binding(ctx)
     feed_roles(ctx)
     bounds_pass_through(ctx)
+    bounds_paired(ctx)
     prepared_call(ctx)
     where_construction(ctx, tenv)
     once_resolution(ctx)
